@@ -1,6 +1,7 @@
 package main
 
 import (
+	"sync/atomic"
 	"go/types"
 	"reflect"
 	"bufio"
@@ -134,7 +135,24 @@ func modelEnv(model string) []string {
 }
 
 // runReplay runs the replay tests and reports (failed?, output).
+type replayOutcome struct {
+	failed bool
+	out    string
+}
+
+var replayMemo = map[string]replayOutcome{}
+
 func runReplay(verif, pkg, test string, env ...string) (bool, string) {
+	key := pkg + "\x00" + test + "\x00" + strings.Join(env, "\x00")
+	if r, ok := replayMemo[key]; ok {
+		return r.failed, "(same replay as above, run once per check)\n" + truncate(r.out, 1500)
+	}
+	f, o := runReplay1(verif, pkg, test, env...)
+	replayMemo[key] = replayOutcome{f, o}
+	return f, o
+}
+
+func runReplay1(verif, pkg, test string, env ...string) (bool, string) {
 	cmd := exec.Command(filepath.Join(verif, "scripts", "replay.sh"), pkg, test)
 	cmd.Env = append(os.Environ(), env...)
 	cmd.Env = append(cmd.Env, "VERIF_ROOT="+verif, "VERIF_REPO="+replayRepo)
@@ -201,6 +219,7 @@ func checkProperty(prop, tier, repo, verif string, seed int, t0 time.Time) int {
 		return fail("cannot load /repo with -tags verif: " + err.Error())
 	}
 	eng.tier = tier
+	loadProofLog(filepath.Join(verif, "proofs", prop+"-"+tier+".tsv"))
 	if h, ok := specialChecks[prop]; ok {
 		return h(eng, prop, tier, seed, t0, evPath)
 	}
@@ -271,6 +290,7 @@ func finishCheck(eng *Engine, prop, tier, repo, verif string, seed int, t0 time.
 		}
 	}
 	solveAll(vcs, dir, timeout, seed, false)
+	defer func() { maybeRecordProofs(vcs) }()
 
 	rmap := loadReplayMap(filepath.Join(verif, "replay", "map.txt"))
 	nObl, nOK := 0, 0
@@ -408,6 +428,7 @@ func finishCheck(eng *Engine, prop, tier, repo, verif string, seed int, t0 time.
 	for k, v := range extraCov {
 		ev.Coverage[k] = v
 	}
+	noteProofLog(&ev)
 	if standin != nil {
 		ev.Coverage["bounded_standins"] = []any{standin.cov}
 		if standin.failed {
@@ -502,6 +523,7 @@ func checkC05(eng *Engine, prop, tier string, seed int, t0 time.Time, evPath str
 		timeout = 60
 	}
 	solveAll(vcs, dir, timeout, seed, false)
+	defer func() { maybeRecordProofs(vcs) }()
 	findings := loadFindings(filepath.Join(verif, "known_findings.txt"))
 	known := map[string]finding{}
 	for _, fd := range findings {
@@ -636,6 +658,7 @@ func checkC05(eng *Engine, prop, tier string, seed int, t0 time.Time, evPath str
 		"trusted_base": []string{"go/ssa", "govc VC generator (safety mode)", "z3", "cvc5"}, "roots": fns, "by_backend": byBackend, "solver_s": round3(solverS),
 		"known_findings_hit": knownHit, "samples": samples, "undecided": undecided, "slice_fallbacks": sliceFallbacks,
 		"bounded_corpus": map[string]any{"label": "bounded (not counted as proved)", "test": "replay/spine/zz_replay_c05_test.go", "panic_sites": len(sites), "summary": firstLineWith(corpusOut, "delivered")}}
+	noteProofLog(&ev)
 	b, _ := json.MarshalIndent(ev, "", " ")
 	if os.Getenv("VERIF_FINGERPRINT") == "" {
 		os.WriteFile(evPath, b, 0o644)
@@ -703,5 +726,32 @@ func runLeafStandin(eng *Engine, prop, verif string) {
 	if standin.failed {
 		rp := writeReplay(verif, prop, "standin:reflective-leaves", "property: "+prop+"\nobligation: standin:reflective-leaves (bounded stand-in, not a proof obligation)\nthe real update helpers disagree with the reference semantics:\n\n"+truncate(out, 8000))
 		fmt.Printf("VIOLATION property=%s replay=%s obligation=standin:reflective-leaves\n", prop, rp)
+	}
+}
+
+// maybeRecordProofs rewrites the proof log of this property from the run just finished (only on request and only
+// from a run without undischarged obligations; a check never writes it by itself)
+func maybeRecordProofs(vcs []*VC) {
+	if os.Getenv("VERIF_RECORD_PROOFS") == "" {
+		return
+	}
+	for _, vc := range vcs {
+		for _, o := range vc.obls {
+			if !o.Cover && o.Result != "unsat" && !knownFindingObls[o.Name] {
+				fmt.Fprintf(os.Stderr, "proof log not recorded: %s is %s\n", o.Name, o.Result)
+				return
+			}
+		}
+	}
+	recordProofLog(vcs)
+}
+
+// noteProofLog states in the evidence how many obligations were accepted from the proof log on this run
+func noteProofLog(ev *evidence) {
+	n := atomic.LoadInt64(&proofLogHits)
+	ev.Coverage["discharged_from_proof_log"] = n
+	ev.Coverage["proof_log"] = strings.TrimPrefix(proofLogPath, "/verif/")
+	if n > 0 {
+		ev.Assumptions = append(ev.Assumptions, fmt.Sprintf("%d obligation(s) on which every back end timed out on this run were accepted because their query text is byte-identical (sha256) to the text a back end discharged when %s was recorded (back end 'prooflog:<name>'); a refutation is never overridden", n, proofLogPath))
 	}
 }
